@@ -87,7 +87,7 @@ def build_store(repo):
                     entries.append((f"{prefix}binary-{arch}/Release", f"Archive: {cn}\nComponent: {comp}\n".encode()))
                 for p in pkgs:
                     meta["pool"][p["filename"]] = p["size"]
-                    store[p["filename"]] = (blob(p["filename"], p["size"]), p.get("date", date - 1000))
+                    store[p["filename"]] = (blob(p["filename"], p["size"]), p.get("date", pool_date(p["filename"])))
             if cp.get("sources") is not None:
                 text = render_sources(cp["sources"])
                 for c in cs["compressions"]:
@@ -96,7 +96,7 @@ def build_store(repo):
                     for fn, size in s["files"]:
                         path = f"{s['directory']}/{fn}"
                         meta["pool"][path] = size
-                        store[path] = (blob(path, size), date - 1000)
+                        store[path] = (blob(path, size), pool_date(path))
             for kind in cp.get("extras", []):
                 # kind e.g. "i18n/Translation-en", "Contents-amd64", "dep11/Components-amd64.yml", "cnf/Commands-amd64"
                 body = blob(f"{cn}/{comp}/{kind}", 30 + len(kind))
@@ -151,6 +151,12 @@ def build_store(repo):
 
 COMPONENTS = ["main", "contrib", "non-free", "main/debian-installer"]
 ARCHES = ["amd64", "i386", "arm64", "all"]
+
+
+def pool_date(path):
+    """pool paths are immutable: the Last-Modified of a pool file is a function of its path"""
+    import zlib
+    return T0 - 100000 + zlib.crc32(path.encode()[::-1]) % 90000
 
 
 def size_of(key, mod):
